@@ -12,7 +12,8 @@ PROPERTY = "C17"
 RULE = ("cases are (rule, existing child-name sequence over the rule's names, candidate name): all sequences up to a "
         "length bound x every declared name, plus random valid sequences with one child deleted (asking where to put it "
         "back), plus foreign candidates; each case calls the real Rule.child_insert_index on a fresh parent. "
-        "distinct = distinct (rule, sequence, candidate); non-trivial = all")
+        "distinct = distinct (rule, sequence, candidate); non-trivial = all"
+        ". Also: candidates with a past, the very next call on one Rule object about the same parent after an edit that kept the child count, parents of 61-257 children, names in foreign spellings and as str-subclass instances")
 ASSUMPTIONS = [
     "declared order = order of first occurrence of the names in the rule's children section",
     "'some insertion position makes the sequence valid' is decided by the reference language of C01 (accept in both "
